@@ -132,12 +132,32 @@ def lemma_direct_assignments(ctx):
                 ctx.check_w(name, ok, wit, "call-site")
 
 
-CONTRACTS = []
-TARGETS = []
+# ---- the clock itself: Engine.tick sets `_tick_time` to this tick's time before anything that can stamp a tag runs ------------------------
+def component(ctx, args, kwargs):
+    """a component call in Engine.tick that can set tag values (hardware tick, read phase, tracking, interpreter, calculated tags,
+    command manager, notification, write phase): when it runs, the engine clock must already be this tick's time"""
+    ctx.check_w(f"engine-clock-is-this-ticks-time-when-tags-can-be-stamped[{ctx.text}]", ctx.spec_bool("self._tick_time == tick_time"),
+                lambda m: {"call": ctx.text}, "call-site")
+    return ctx.fresh("component_result", None)
+
+
+component.modifies = None
+tick_clock = Contract(
+    target="openpectus.engine.engine:Engine.tick",
+    types={"self": "Engine", "tick_time": "float", "increment_time": "float", "Engine._tick_time": "float", "Engine._tick_number": "int",
+           "Engine._runstate_started": "bool", "Engine._runstate_paused": "bool", "Engine._runstate_holding": "bool",
+           "Engine._runstate_stopping": "bool"},
+    calls={"self.update_calculated_tags": component, "self.interpreter.tick": component, "self.set_error_state": component,
+           "self._command_manager.tick": component, "self.read_process_image": component, "self.write_process_image": component,
+           "self.notify_tag_updates": component, "self.tracking.tick": component, "self.uod.hwl.tick": component,
+           "self._tick_timer.stop": lambda ctx, a, k: ctx.none()},
+    raises=None, options={"lenient": True, "protected_prefixes": (), "opaque_subscript": True, "default_unroll": 1})
+CONTRACTS = [tick_clock]
+TARGETS = [tick_clock.key]
 LEMMAS = [("tag-time-call-sites", lemma_sites), ("tag-value-direct-assignments", lemma_direct_assignments)]
 LEVEL = "other"
 TRUSTED = ["Tag.set_value stores the given time as the tag's tick_time when the value changes (tags.py, read not proved)",
-           "the engine/interpreter `_tick_time` is the engine clock of the current tick; event handlers receive it as `tick_time`",
+           "the interpreter's `_tick_time` is the engine clock of the current tick; event handlers receive it as `tick_time` (for the engine itself this is an obligation on Engine.tick: the clock is set before any component that can stamp a tag runs)",
            "engine clock readings are non-decreasing (monotonicity and bounds of reported times follow from that)"]
 CLAUSES = {"every reported value carries the engine clock time of its tick": "one call-site obligation per setter call in the seven files, and one obligation per Tag method that assigns self.value directly (both discovered on every run)",
            "times per tag never decrease / lie between engine start and the current tick": "follows from the call-site contract + monotone clock (assumed), not mechanised"}
